@@ -246,20 +246,26 @@ where
             _ => {
                 let mut updated = false;
                 let mut offset = 0;
+                //new items are appended after the original (sorted) part, which is the only part we may search in
+                let origlen = self.array.len();
                 for item in other.iter() {
                     if self.sorted && other.sorted {
                         //optimisation if both are sorted
-                        match self.array[offset..].binary_search(&item) {
-                            Ok(index) => offset = index + 1,
+                        //(the index returned by the search is relative to the offset)
+                        match self.array[offset..origlen].binary_search(&item) {
+                            Ok(index) => offset += index + 1,
                             Err(index) => {
-                                offset = index + 1;
+                                offset += index;
                                 updated = true;
                                 self.add_unchecked(item);
                             }
                         }
+                    } else if self.sorted {
+                        //keep the collection sorted as we go, otherwise the binary search in contains() is not valid
+                        self.add(item);
                     } else {
                         if !self.contains(&item) {
-                            //will do either binary or linear search
+                            //linear search
                             updated = true;
                             self.add_unchecked(item);
                         }
@@ -293,6 +299,7 @@ where
                     //check if we need to modify the vector in place or if we can just copy the other
                     if self.contains_subset(other) {
                         self.array = other.array.clone(); //may be cheap if borrowed, expensive if owned
+                        self.sorted = other.sorted; //we took over the order of the other collection
                         return;
                     }
                 } else if len < otherlen {
@@ -308,13 +315,14 @@ where
         self.array.to_mut().retain(|x| {
             if self.sorted && other.sorted {
                 //optimisation if both are sorted
+                //(the index returned by the search is relative to the offset)
                 match other.array[offset..].binary_search(x) {
                     Ok(index) => {
-                        offset = index + 1;
+                        offset += index + 1;
                         true
                     }
                     Err(index) => {
-                        offset = index + 1;
+                        offset += index;
                         false
                     }
                 }
